@@ -155,6 +155,10 @@ impl<T> OneShotShared<T> {
     let current_state = self.state.load(Ordering::Acquire);
     if current_state >= STATE_SENT {
       // SENT, TAKEN, or CLOSED
+      if current_state == STATE_CLOSED && self.receiver_dropped.load(Ordering::Acquire) {
+        // The receiver left (after the first check above): nothing was ever sent.
+        return Err(TrySendError::Closed(value));
+      }
       return Err(TrySendError::Sent(value)); // Treat CLOSED as if already sent for send attempt
     }
 
@@ -202,7 +206,12 @@ impl<T> OneShotShared<T> {
       }
       Err(observed_state_on_failure) => {
         // CAS failed. Another sender is writing, or value is already sent/taken/closed.
-        if observed_state_on_failure >= STATE_SENT {
+        if observed_state_on_failure == STATE_CLOSED
+          && self.receiver_dropped.load(Ordering::Acquire)
+        {
+          // The receiver left while we were racing: nothing was ever sent.
+          Err(TrySendError::Closed(value))
+        } else if observed_state_on_failure >= STATE_SENT {
           // SENT, TAKEN, CLOSED
           Err(TrySendError::Sent(value))
         } else if observed_state_on_failure == STATE_WRITING {
